@@ -43,6 +43,7 @@ struct Env {
     std::vector<QXmppPromise<T>> ps;
     std::vector<QXmppTask<T>> ts;
     QObject *ctxObj = nullptr;
+    std::vector<QObject *> oldCtx;  // contexts of replaced continuations that were kept alive
     int runs = 0;
     int got = 0;
     QString body;       // body of the continuation, set by the operation that may trigger it
@@ -219,6 +220,8 @@ void runBehaviour(Ctx &ctx, const QString &caseId, const QString &kind, const QJ
                 possible = !e.ps.empty();
             } else if (a == "DropTask") {
                 possible = !e.ts.empty();
+            } else if (a == "ThenReplace") {
+                possible = !e.ts.empty() && !e.ts[0].isFinished();
             } else if (a == "Then" || a == "ThenLate") {
                 possible = !e.ts.empty() && e.ctxObj;
             } else if (a == "MakeTask") {
@@ -267,6 +270,29 @@ void runBehaviour(Ctx &ctx, const QString &caseId, const QString &kind, const QJ
                     e.ts[0].then(e.ctxObj, Cont<T> { &e, e.sentinel, self });
                 }
                 e.executing = 0;
+            } else if (a == "ThenReplace") {
+                // a second then() before finish(), registered with a context object of its own
+                bool sc = s["sc"].toBool();
+                auto old = s["old"].toString();
+                ev["sc"] = sc;
+                ev["old"] = old;
+                auto *ctx2 = new QObject;
+                auto self = sc ? std::make_shared<QXmppTask<T>>(e.ts[0]) : std::shared_ptr<QXmppTask<T>>();
+                e.executing = 't';
+                if constexpr (std::is_void_v<T>) {
+                    e.ts[0].then(ctx2, ContVoid { &e, e.sentinel, self });
+                } else {
+                    e.ts[0].then(ctx2, Cont<T> { &e, e.sentinel, self });
+                }
+                e.executing = 0;
+                if (e.ctxObj) {
+                    if (old == "destroy") {
+                        delete e.ctxObj;
+                    } else {
+                        e.oldCtx.push_back(e.ctxObj);
+                    }
+                }
+                e.ctxObj = ctx2;
             } else if (a == "ThenLate") {
                 bool sc = s["sc"].toBool();
                 ev["sc"] = sc;
@@ -305,6 +331,10 @@ void runBehaviour(Ctx &ctx, const QString &caseId, const QString &kind, const QJ
         e.ts.clear();
         delete e.ctxObj;
         e.ctxObj = nullptr;
+        for (auto *o : e.oldCtx) {
+            delete o;
+        }
+        e.oldCtx.clear();
         e.reThen = nullptr;
         QJsonObject ev { { "e", "DropAll" }, { "o", observe(e) }, { "r2", e.runs2 } };
         ctx.emit_(ev);
